@@ -6,7 +6,7 @@ from .. import scenes, obs, oracles
 ID, NUM, LEVEL = 'C18', 18, 'exploration'
 RULE = ('Evaluation = one argument of the real wmo.perc2okta / okta2code / height2code. perc2okta(100*n/m and '
         'n/m*100): 0 iff n=0, 8 iff n=m, else the integer nearest to 8n/m (exact integer arithmetic; either '
-        'neighbour at an exact half) clipped to 1..7, non-decreasing in n, scalar == array form, independent of the numeric dtype of the input (8/16/32/64-bit (un)signed ints, float16/32/64), input array left untouched, values outside '
+        'neighbour at an exact half) clipped to 1..7, non-decreasing in n, scalar == array form, independent of the numeric dtype of the input (8/16/32/64-bit (un)signed ints, float16/32/64), input array left untouched, unaffected by real pipeline runs made earlier in the process and by the logging level (DEBUG), values outside '
         '[0,100] (scalar or one array element) -> AmpycloudError. okta2code: table for 0..9, other ints and '
         'non-integer types -> AmpycloudError (numpy ints and bool observed, not judged). height2code: 3 digits, '
         'equals floor(h/100) up to 10000 ft and floor(h/1000)*10 above, 100*int(code) <= h, non-decreasing. '
@@ -14,7 +14,7 @@ RULE = ('Evaluation = one argument of the real wmo.perc2okta / okta2code / heigh
         'plus +-1..3 ulp neighbours of every multiple of 100 ft (<=10000) and of 1000 ft, integers -2..11 and '
         'non-integer types. Distinct by construction (enumeration).')
 ASSUMPTIONS = ['exact half-okta ties accept both neighbours (the documentation and numpy rounding disagree there)']
-REQUIRED = ['perc2okta_dtypes', 'perc2okta_pairs', 'perc2okta_scalar', 'half_okta_tie', 'out_of_range', 'okta2code', 'height_grid',
+REQUIRED = ['after_pipeline_runs', 'debug_logging', 'perc2okta_dtypes', 'perc2okta_pairs', 'perc2okta_scalar', 'half_okta_tie', 'out_of_range', 'okta2code', 'height_grid',
             'height_boundary_neighbours'] + ['okta%d' % i for i in range(9)]
 MMAX = {'quick': 3000, 'thorough': 10000}
 EXHAUSTIVE = {'quick': 'all percentages n/m*100 with 0<=n<=m<=3000; 0.5-ft height grid over [0,1e5); ints -2..11',
@@ -29,6 +29,10 @@ def plan(tier, seed):
         out.append({'fam': 'perc', 'lo': 1 + j, 'step': nchunks, 'M': M, 'i': j})
     out.append({'fam': 'okta2code', 'i': 100})
     out.append({'fam': 'dtypes', 'i': 102})
+    out.append({'fam': 'after_pipeline', 'i': 103, 's': seed})
+    out.append({'fam': 'hbound', 'i': 301, 'debuglog': True})
+    out.append({'fam': 'perc', 'lo': 1, 'step': 37, 'M': min(M, 3000), 'i': 33, 'debuglog': True})
+    out.append({'fam': 'range', 'i': 104, 's': seed, 'debuglog': True})
     out.append({'fam': 'range', 'i': 101, 's': seed})
     for j in range(40):
         out.append({'fam': 'hgrid', 'lo': j * 2500.0, 'hi': (j + 1) * 2500.0, 'i': 200 + j})
@@ -55,6 +59,12 @@ def acceptable(n, m):
 def check(desc):
     from ampycloud import wmo
     from ampycloud.errors import AmpycloudError
+    if desc.get('debuglog') and not desc.get('_inner'):
+        from .. import env as _env
+        with _env.debug_logging():
+            out = check(dict(desc, _inner=True))
+        out['tags'] = sorted(set(out['tags']) | {'debug_logging'})
+        return out
     viol, tags = [], set()
     n_ev = 0
     sample = None
@@ -132,6 +142,32 @@ def check(desc):
                         oracles.V(viol, 'C18', 'perc2okta of a one-element array of another dtype', dtype=np.dtype(dt).name,
                                   val=float(v), got=int(np.asarray(g1)[0]), expected=int(e))
         sample = {'workload': 'perc2okta dtypes', 'dtypes': ['uint8', 'int8', 'uint16', 'int16', 'int32', 'int64', 'uint64', 'float32', 'float16']}
+    elif fam == 'after_pipeline':
+        # history: the conversions are used by real runs first (nearly full layers, buffers engaged), then queried
+        import ampycloud
+        import warnings
+        from .. import pipeline
+        tags.add('after_pipeline_runs')
+        rng = scenes.rng_for(desc['s'], NUM, desc['i'])
+        with warnings.catch_warnings():
+            warnings.simplefilter('ignore')
+            for T, c, h8 in ((60, 59, 1), (40, 39, 2), (80, 78, 5), (60, 57, 5), (30, 29, 1), (20, 20, 0), (50, 48, 2)):
+                sc = scenes.flat_layers_scene(rng, [{'h': 1000.0, 'count': c}], nt=T)
+                try:
+                    ampycloud.run(scenes.frame(sc), prms={'MAX_HOLES_OKTA8': h8})
+                except Exception:      # noqa - decided by C08
+                    pass
+        for m in (20, 30, 40, 50, 60, 80):
+            ns = np.arange(m + 1)
+            vals = ns / m * 100
+            arr = wmo.perc2okta(vals.copy())
+            for n in range(m + 1):
+                s1 = wmo.perc2okta(float(vals[n]))
+                n_ev += 1
+                acc = acceptable(n, m)
+                if int(s1[0]) not in acc or int(arr[n]) not in acc:
+                    oracles.V(viol, 'C18', 'perc2okta value after pipeline runs in the same process', n=n, m=m,
+                              scalar=int(s1[0]), array=int(arr[n]), expected=list(acc))
     elif fam == 'okta2code':
         table = {0: 'NCD', 1: 'FEW', 2: 'FEW', 3: 'SCT', 4: 'SCT', 5: 'BKN', 6: 'BKN', 7: 'BKN', 8: 'OVC', 9: None}
         for k in range(-2, 12):
